@@ -19,11 +19,18 @@ run's plugins / contracts - plus the hints the spec needs (OP_RANDOM output,
 reference results of data primitives, serialised error text).
 """
 from __future__ import annotations
-import copy, importlib, random, sys
+import collections, copy, importlib, random, sys
 from .ref import opsem
 
-ADOPT_OPS = {82, 59}          # outcome adopted from the log (see DESIGN: MASV, CHECK_TRANSFER)
+ADOPT_OPS = {59}          # outcome adopted from the log (see DESIGN: MASV, CHECK_TRANSFER)
 MAX_ALLOC = 1 << 22           # token_bytes beyond this is refused (and recorded)
+
+
+def _depth():
+    f, n = sys._getframe(), 0
+    while f is not None:
+        f, n = f.f_back, n + 1
+    return n
 
 
 def fkey(k):
@@ -80,12 +87,49 @@ def bc_val(v):
     return False, [[999, 999]]
 
 
+class _WatchDeque(collections.deque):
+    """deque that reports item-count / item-size high-water marks to the recorder, so a
+    path that bypasses Stack.put (or a maxlen drop) is seen inside an instruction"""
+    rec = None
+
+    def _note(self, item=None):
+        r = self.rec
+        if r is not None:
+            if len(self) > r.hw_items:
+                r.hw_items = len(self)
+            if item is not None and isinstance(item, (bytes, bytearray)) and len(item) > r.hw_item_size:
+                r.hw_item_size = len(item)
+
+    def append(self, item):
+        if self.maxlen is not None and len(self) >= self.maxlen and self.rec is not None:
+            self.rec.dropped += 1
+        super().append(item)
+        self._note(item)
+
+    def appendleft(self, item):
+        super().appendleft(item)
+        self._note(item)
+
+    def extend(self, items):
+        for it in items:
+            self.append(it)
+
+    def __setitem__(self, i, item):
+        super().__setitem__(i, item)
+        self._note(item)
+
+    def insert(self, i, item):
+        super().insert(i, item)
+        self._note(item)
+
+
 class Recorder:
     def __init__(self, now: int = 1_700_000_000, seed: int = 0, watch_alloc: bool = False):
         import tapescript.functions as F
         import tapescript.tools as T
         self.F, self.T = F, T
         self.now = now
+        self.seed = seed
         self.rng = random.Random(seed)
         self.installed = False
         self.saved = {}
@@ -95,6 +139,11 @@ class Recorder:
     # ------------------------------------------------------------------ run state
     def reset(self):
         self.events = []
+        self.hist = []
+        self.script_idx = 1
+        self.final_stack = []
+        self.final_cache = {}
+        self.ret0_changed = False
         self.fstack = []          # active run_tape invocations (tapes)
         self.opstack = []         # active instruction invocations
         self.cur_exc = None
@@ -115,6 +164,10 @@ class Recorder:
         self.max_events = 20000
         self.truncated = False
         self.hw_items = 0
+        self.dropped = 0
+        self.step_alloc = 0
+        self.extra = 0
+        self.base_limit = sys.getrecursionlimit()
         self.contracts = getattr(self, 'contracts', {})
         self.hw_item_size = 0
 
@@ -139,6 +192,17 @@ class Recorder:
         if self.saved['ttime'] is not None:
             self.T.time = lambda: self.now
         F.run_plugins = self._wrap_run_plugins(F.run_plugins)
+        recorder = self
+        OrigStack = F.Stack
+        self.saved['Stack'] = OrigStack
+
+        class WatchedStack(OrigStack):
+            def __init__(self, *a, **k):
+                super().__init__(*a, **k)
+                d = _WatchDeque(self.deque, maxlen=self.deque.maxlen)
+                d.rec = recorder
+                self.deque = d
+        F.Stack = WatchedStack
         self.installed = True
 
     def uninstall(self):
@@ -154,11 +218,13 @@ class Recorder:
         if self.saved['ttime'] is not None:
             self.T.time = self.saved['ttime']
         F.run_plugins = self.saved['run_plugins']
+        F.Stack = self.saved['Stack']
         self.installed = False
 
     # ------------------------------------------------------------------ wrappers
     def _token_bytes(self, n):
         self.max_token_req = max(self.max_token_req, n if isinstance(n, int) else 0)
+        self.step_alloc = max(self.step_alloc, min(n, 2**30) if isinstance(n, int) else 0)
         if isinstance(n, int) and n > MAX_ALLOC:
             raise MemoryError(f'token_bytes({n}) refused by the verification harness')
         if isinstance(n, int) and n < 0:
@@ -166,9 +232,21 @@ class Recorder:
         self.last_rand = self.rng.randbytes(n)
         return self.last_rand
 
+    # The wrappers add Python frames of their own.  So that observation never
+    # induces (or hides) a RecursionError, the interpreter's recursion limit is
+    # raised by exactly the number of wrapper frames currently active: the
+    # wrapped code keeps the headroom it would have without the harness.
+    def _frames(self, delta):
+        self.extra += delta
+        sys.setrecursionlimit(self.base_limit + self.extra)
+
     def _wrap_run_plugins(self, orig):
         def run_plugins(scope, tape, stack, cache):
-            res = orig(scope, tape, stack, cache)
+            self._frames(+1)
+            try:
+                res = orig(scope, tape, stack, cache)
+            finally:
+                self._frames(-1)
             if scope == 'signature_extensions':
                 self.plug_calls += len(res)
             elif scope == 'check_template':
@@ -178,7 +256,11 @@ class Recorder:
 
     def _wrap_set_flags(self, orig):
         def set_tape_flags(tape, additional_flags={}):
-            r = orig(tape, additional_flags)
+            self._frames(+1)
+            try:
+                r = orig(tape, additional_flags)
+            finally:
+                self._frames(-1)
             if self.fstack and self.fstack[-1].get('pending') and self.fstack[-1]['tape'] is tape:
                 self.fstack[-1]['pending'] = False
                 self._on_enter(tape)
@@ -190,9 +272,11 @@ class Recorder:
             self.stack_obj, self.cache_obj = stack, cache
             self.fstack.append({'tape': tape, 'pending': True})
             self.keepalive.append(tape)
+            self._frames(+1)
             try:
                 return orig(tape, stack, cache, additional_flags=additional_flags)
             finally:
+                self._frames(-1)
                 self.fstack.pop()
         return run_tape
 
@@ -200,6 +284,7 @@ class Recorder:
         def op(tape, stack, cache):
             self.stack_obj, self.cache_obj = stack, cache
             rec = {'entered': False, 'code': code, 'prim': None}
+            self.hist.append((self.script_idx, len(self.fstack), tape.pointer - 1, code))
             try:
                 rec['prim'] = opsem.prims(code, tape.data, tape.pointer, list(stack.deque), self.sc0, self.contracts)
             except Exception as e:    # pragma: no cover
@@ -207,15 +292,18 @@ class Recorder:
             self.opstack.append(rec)
             self.last_rand = b''
             self.ct_results = []
+            self._frames(+1)
             try:
                 fn(tape, stack, cache)
             except BaseException as e:
+                self._frames(-1)
                 self.opstack.pop()
                 if e is not self.cur_exc:
                     self.cur_exc = e
                     self._emit('post' if rec['entered'] else 'op', rec, exc=e)
                 raise
             else:
+                self._frames(-1)
                 self.opstack.pop()
                 self._emit('post' if rec['entered'] else 'op', rec)
         op.__wrapped__ = fn
@@ -229,6 +317,8 @@ class Recorder:
         if self.first_enter:
             self.first_enter = False      # the first tape is the spec's initial state
             return
+        if not self.opstack:
+            self.script_idx += 1          # run_tape called by run_auth_scripts: next script
         rec = self.opstack[-1] if self.opstack else None
         for r in self.opstack:
             r['entered'] = True
@@ -289,22 +379,29 @@ class Recorder:
             'code': list(tape.data) if tape is not None else [],
             'cnt': tape.callstack_count if tape is not None else 0,
             'verdict': bool(verdict) if verdict is not None else False,
+            'top': (list(stack[-1]) if stack and isinstance(stack[-1], (bytes, bytearray)) and kind != 'end' else []),
+            'alloc': self.step_alloc, 'hwi': self.hw_items, 'hws': self.hw_item_size,
             'op': rec['code'] if rec is not None else -1,
             'h': {'rand': list(self.last_rand) if kind == 'op' else [], 'prim': prim,
                   'etext': etext, 'ct': [bool(x) for x in self.ct_results if x is not None],
                   'adopt': adopt},
         }
         self.events.append(ev)
+        self.step_alloc = 0
+        self.hw_items = 0
+        self.hw_item_size = 0
 
     # ------------------------------------------------------------------ driving
     def run(self, scripts: list, cache_vals: dict | None = None, *, auth: bool = False,
             contracts: dict | None = None, plugins: dict | None = None,
             additional_flags: dict | None = None, max_items: int = 1024,
             max_item_size: int = 1024, callstack_limit: int = 128,
-            nsig: int = 0, nct: int = 0, forks: dict | None = None, ident=None) -> dict:
+            nsig: int = 0, nct: int = 0, forks: dict | None = None, ident=None,
+            keep_state: bool = False) -> dict:
         """Run through the public API under observation; return one trace record."""
         F = self.F
         self.reset()
+        self.rng = random.Random(f'{self.seed}/{ident}')
         cache_vals = dict(cache_vals or {})
         self.sc0 = copy.deepcopy({k: v for k, v in {'timestamp': self.now, **cache_vals}.items()
                                   if not isinstance(k, (bytes, bytearray)) and k != 'returned'})
@@ -318,6 +415,11 @@ class Recorder:
                   callstack_limit=callstack_limit)
         verdict, exc = None, None
         self.install()
+        old_limit = sys.getrecursionlimit()
+        # the embedder is assumed to call from a shallow stack (depth 20)
+        self.base_limit = old_limit + max(0, _depth() - 20) + 40   # +40: transient harness frames (_emit, json-free)
+        self.extra = 0
+        sys.setrecursionlimit(self.base_limit)
         try:
             if auth:
                 verdict = F.run_auth_scripts(list(scripts), **kw)
@@ -328,9 +430,14 @@ class Recorder:
                 raise
             exc = e
         finally:
+            sys.setrecursionlimit(old_limit)
             self.uninstall()
         # the end event: nothing is running any more
         self.fstack = []
+        self.final_stack = list(self.stack_obj.deque) if self.stack_obj is not None else []
+        self.final_cache = dict(self.cache_obj) if self.cache_obj is not None else dict(cache_vals)
+        self.ret0_changed = 'returned' in cache_vals and (
+            'returned' not in self.final_cache or self.final_cache['returned'] is not cache_vals['returned'])
         if exc is not None and exc is not self.cur_exc:
             api_exc = exc          # raised by the API itself, not by an instruction
         else:
